@@ -984,6 +984,8 @@ def getattr_(ip, o, attr):
             return o
         if attr == 'imag':
             return 0
+    if o is None and not (attr.startswith('__') and attr.endswith('__')):
+        raise PyRaise(ExcVal('AttributeError', ("'NoneType' object has no attribute '%s'" % attr,)))
     raise Unsupported('attribute %s of %r' % (attr, o))
 
 
@@ -1039,6 +1041,8 @@ def b_range(ip, args, kw):
 def call_type(ip, name, args, kw):
     if name == 'int':
         x = args[0] if args else 0
+        if hasattr(x, 'pv_int'):
+            return x.pv_int(ip)
         if is_int(x):
             return x
         if is_bool(x):
